@@ -26,6 +26,8 @@ def universes(tier):
             if oracle.n_carbon(t[1]) > oracle.n_carbon(t[0]):
                 surplus.append(cand)
     us.append(("carbon surplus", pf.dedupe(surplus), {}, 10))
+    us.append(("size ladder", pf.dedupe(pf.LARGE), {}, 3))
+    us.append(("atomic H/O reagents", pf.dedupe(pf.PLACEHOLDERS), {}, 8))
     if tier == "thorough":
         corpus = [r for r in pf.corpus_reactions("reaction") if pf.in_domain(r)]
         us.append(("validation corpus", corpus, {}, 25))
